@@ -283,7 +283,10 @@ func (w *c02World) step() {
 			}
 			p = cl.cl.Publish(full, []byte(payload), false, qos1)
 		}
-		w.c.Logf("c%d PUBLISH %s link=%q qos1=%v %s", cl.idx, w.norm.Apply(full), viaLink, qos1, payload)
+		if t.Chance(1, 6) {
+			p.Dup = true // a re-delivery whose first copy never arrived is a publish like any other
+		}
+		w.c.Logf("c%d PUBLISH %s link=%q qos1=%v dup=%v %s", cl.idx, w.norm.Apply(full), viaLink, qos1, p.Dup, payload)
 		mid := p.MessageID
 		w.compose(cl, p, func() { w.applyPublish(cl, full, payload, qos1, mid) })
 	case k < 95: // link request
